@@ -139,7 +139,7 @@ func main() {
 	run := vr.New("C08", "exploration")
 	freepass.MaybeReplay(run)
 	c := ctx{run}
-	run.Rule("write side: every message length in {0,4,..,520} u {1016,1020,1024,65536,2^20} and every sequence of <=3 lengths over {0,4,504,508,512,1024}, both modes, against a reference framer; read side through the real tcpConn read path (CancelableReader, io.ReadFull) over a reader whose chunking is enumerated: every composition of streams up to N bytes, every single cut, every pair of cuts within 8 bytes of a frame boundary, byte-at-a-time and all-at-once for longer ones; 4-byte error frames; end of stream at every byte; non-trivial = a read case with at least one cut")
+	run.Rule("write side: every message length in {0,4,..,520} u {1016,1020,1024,65536,2^20} and every sequence of <=3 lengths over {0,4,504,508,512,1024}, both modes, against a reference framer; every sequence of <=3 write/read operations over lengths {4,508,1024,262144} on one mode object (both directions share it); read side through the real tcpConn read path (CancelableReader, io.ReadFull) over a reader whose chunking is enumerated: every composition of streams up to N bytes, every single cut, every pair of cuts within 8 bytes of a frame boundary, byte-at-a-time and all-at-once for longer ones; 4-byte error frames; end of stream at every byte; non-trivial = a read case with at least one cut")
 	run.Assume("OS-level TCP segmentation cannot be owned; the reader seam below tcpConn's CancelableReader stands for the socket (a loopback run is not part of the deciding enumeration)")
 	variants := []mode.Variant{mode.Abridged, mode.Intermediate}
 	N := 14
@@ -177,6 +177,9 @@ func main() {
 				}
 			}
 		}
+	}
+	for _, v := range variants {
+		c.bidirectional(v)
 	}
 	// ---- read side: all compositions of short streams
 	for _, v := range variants {
@@ -393,6 +396,86 @@ func (c ctx) write(v mode.Variant, seq []int) {
 	case !bytes.Equal(buf.Bytes(), want):
 		c.run.Violation("write|bytes-differ|"+variantName(v)+"|"+cls, fmt.Sprintf("%s: wrote %d bytes, the format defines %d", id, buf.Len(), len(want)), rep)
 	}
+}
+
+// duplexConn: the inbound stream is prepared up front, the outbound one is collected.
+type duplexConn struct {
+	r *bytes.Reader
+	w bytes.Buffer
+}
+
+func (d *duplexConn) Read(p []byte) (int, error)  { return d.r.Read(p) }
+func (d *duplexConn) Write(p []byte) (int, error) { return d.w.Write(p) }
+
+// both directions on ONE mode object, as a connection has it: every sequence of up to 3 operations over
+// {write n, read n}; what is read must be what the peer framed, what is written must be the reference framing
+func (c ctx) bidirectional(v mode.Variant) {
+	type op struct {
+		write bool
+		n     int
+	}
+	var alphabet []op
+	for _, n := range []int{4, 508, 262144} {
+		alphabet = append(alphabet, op{true, n})
+	}
+	for _, n := range []int{4, 508, 1024, 262144} {
+		alphabet = append(alphabet, op{false, n})
+	}
+	var run func(seq []op)
+	run = func(seq []op) {
+		if len(seq) > 0 {
+			var inbound []byte
+			for i, o := range seq {
+				if !o.write {
+					inbound = append(inbound, frame(v, payload(o.n, i))...)
+				}
+			}
+			d := &duplexConn{r: bytes.NewReader(inbound)}
+			want := announce(v)
+			id := fmt.Sprintf("bidirectional %s %v", variantName(v), seq)
+			bad := ""
+			p, pm, fr := vr.Try(func() {
+				m, err := mode.New(v, d)
+				if err != nil {
+					bad = "new: " + err.Error()
+					return
+				}
+				for i, o := range seq {
+					if o.write {
+						msg := payload(o.n, i+100)
+						want = append(want, frame(v, msg)...)
+						if err := m.WriteMsg(msg); err != nil {
+							bad = fmt.Sprintf("op %d: write: %v", i, err)
+							return
+						}
+					} else {
+						b, err := m.ReadMsg()
+						if err != nil || !bytes.Equal(b, payload(o.n, i)) {
+							bad = fmt.Sprintf("op %d: read of a %d-byte message gives %d bytes, err=%v", i, o.n, len(b), err)
+							return
+						}
+					}
+				}
+			})
+			c.run.Eval(id, true)
+			rep := map[string]any{"mode": variantName(v), "ops": fmt.Sprint(seq)}
+			switch {
+			case p:
+				c.run.Violation("bidirectional|panic|"+variantName(v)+"|"+vr.MsgClass(pm)+"|"+fr, id+": "+pm, rep)
+			case bad != "":
+				c.run.Violation("bidirectional|wrong|"+variantName(v), id+": "+bad, rep)
+			case !bytes.Equal(d.w.Bytes(), want):
+				c.run.Violation("bidirectional|written-bytes-differ|"+variantName(v), id+": the written stream differs from the reference framing", rep)
+			}
+		}
+		if len(seq) == 3 {
+			return
+		}
+		for _, o := range alphabet {
+			run(append(append([]op{}, seq...), o))
+		}
+	}
+	run(nil)
 }
 
 func lenClass(seq []int) string {
